@@ -71,6 +71,20 @@ func Open(arm string, reg *registry.Register) (*Handle, error) {
 	return h, nil
 }
 
+// OpenFileWith opens a fresh file-backed sqlite vault in a temporary directory of its own with the given options.
+func OpenFileWith(reg *registry.Register, opts ...sqlite.Option) (*Handle, error) {
+	dir, err := os.MkdirTemp("", "verif-store-")
+	if err != nil {
+		return nil, err
+	}
+	v, err := sqlite.New(context.Background(), dir, reg, opts...)
+	if err != nil {
+		os.RemoveAll(dir)
+		return nil, err
+	}
+	return &Handle{Arm: ArmSqliteFile, Vault: v, Sqlite: v, Dir: dir, ownDir: true, reg: reg, opts: opts}, nil
+}
+
 // OpenDir opens a file-backed sqlite vault on an existing directory (which the caller owns).
 func OpenDir(dir string, reg *registry.Register, opts ...sqlite.Option) (*Handle, error) {
 	v, err := sqlite.New(context.Background(), dir, reg, opts...)
@@ -259,4 +273,46 @@ func (h *Handle) Rows(planID uuid.UUID) (Rows, error) {
 		return Rows{}, fmt.Errorf("row counting needs a sqlite arm")
 	}
 	return SqliteRows(h.Sqlite, planID)
+}
+
+// RowHook installs, on the single connection of a sqlite vault (pool size 1), an application-defined SQL function and one
+// TEMP trigger AFTER INSERT and one AFTER DELETE per user table (tables discovered from sqlite_master, nothing about the
+// schema is assumed), so that fn is called synchronously, on the goroutine that executes the statement, after every row
+// the vault inserts ("i") or deletes ("d"). TEMP triggers live in the connection, not in the database file, and are not
+// counted by SqliteRows. Used by C14's cancel mode to end a context at an exact row of a Create or Delete.
+func RowHook(v *sqlite.Vault, fn func(op string)) error {
+	if v == nil {
+		return fmt.Errorf("row hook needs a sqlite vault")
+	}
+	pool := v.Pool()
+	conn, err := pool.Take(context.Background())
+	if err != nil {
+		return err
+	}
+	defer pool.Put(conn)
+	err = conn.CreateFunction("verif_row_hook", &zsqlite.FunctionImpl{
+		NArgs:         1,
+		AllowIndirect: true,
+		Scalar: func(ctx zsqlite.Context, args []zsqlite.Value) (zsqlite.Value, error) {
+			fn(args[0].Text())
+			return zsqlite.IntegerValue(0), nil
+		},
+	})
+	if err != nil {
+		return fmt.Errorf("creating the hook function: %w", err)
+	}
+	tables, err := queryStrings(conn, "SELECT name FROM sqlite_master WHERE type = 'table' AND name NOT LIKE 'sqlite_%' ORDER BY name")
+	if err != nil {
+		return fmt.Errorf("listing tables: %w", err)
+	}
+	for i, t := range tables {
+		for _, ev := range []struct{ name, op string }{{"INSERT", "i"}, {"DELETE", "d"}} {
+			q := fmt.Sprintf("CREATE TEMP TRIGGER verif_hook_%s_%d AFTER %s ON main.%s BEGIN SELECT verif_row_hook('%s'); END;",
+				strings.ToLower(ev.name), i, ev.name, quoteIdent(t), ev.op)
+			if err := sqlitex.ExecuteTransient(conn, q, nil); err != nil {
+				return fmt.Errorf("creating a trigger on %s: %w", t, err)
+			}
+		}
+	}
+	return nil
 }
